@@ -140,6 +140,7 @@ func mutants(b []byte, every int) [][]byte {
 func runC08(c *Ctx) {
 	c.Rule("valid encodings of every packet kind, then every truncation point and every 4-byte window replaced by 0,1,n-1,n+1,2^20,2^31-1,2^32-1; every type byte 0..255; random strings; " +
 		"fed to makePacket, filexfer RequestPacket/response decoders, both attribute decoders and both frame readers in a child process (ulimit -v); " +
+		"additionally (kind framefail, oracle only) both frame readers on a transport that fails with a non-EOF error after every number of bytes of a valid frame, delivering 1, 3 or all requested bytes per read; " +
 		"non-trivial = input that is not itself a valid encoding")
 	child, err := startChild("c08", 6000000)
 	if err != nil {
@@ -308,6 +309,48 @@ func runC08(c *Ctx) {
 		ask("decBresp", []string{kvh("b", m)}, "decBresp "+hexs(m), len(m), false)
 		ask("attrsA", []string{kvh("b", m)}, "attrsA "+hexs(m), len(m), false)
 		ask("attrsB", []string{kvh("b", m)}, "attrsB "+hexs(m), len(m), false)
+	}
+	// a transport that FAILS (an error that is not io.EOF) after every number of bytes of a valid frame, delivering in
+	// pieces of 1, 3 or as many bytes as asked: both frame readers must return an error, never panic (oracle only)
+	for _, k := range []string{"open", "write", "close", "status", "data", "name", "init"} {
+		p := genPacket(c.Rng, k, 0xf, false)
+		if len(p.Data) > 40 {
+			p.Data = p.Data[:40]
+		}
+		fr, err := sftp.VerifEncA(p)
+		if err != nil {
+			continue
+		}
+		for failAt := 0; failAt < len(fr); failAt++ {
+			for _, step := range []int{0, 1, 3} {
+				for _, alloc := range []bool{false, true} {
+					n := c.Case("framefail", kvs("codec", "a"), kvs("kind", k), kvi("failat", failAt), kvi("step", step), kvb("alloc", alloc), kvh("frame", fr))
+					c.NT(n)
+					ek, _, pan := sftp.VerifRecvPacketFail(fr, failAt, step, alloc)
+					c.Stat("framefail_a")
+					switch {
+					case pan:
+						c.Oracle(n, false, fmt.Sprintf("frame reader A panicked when the transport failed after %d of %d bytes", failAt, len(fr)))
+					case ek == "ok":
+						c.Oracle(n, false, fmt.Sprintf("frame reader A returned a packet although the transport failed after %d of %d bytes", failAt, len(fr)))
+					default:
+						c.Oracle(n, true, "")
+					}
+				}
+				n := c.Case("framefail", kvs("codec", "b"), kvs("kind", k), kvi("failat", failAt), kvi("step", step), kvh("frame", fr))
+				c.NT(n)
+				ek, _, pan := sftp.VerifReadPacketBFail(fr, failAt, step, 1<<18)
+				c.Stat("framefail_b")
+				switch {
+				case pan:
+					c.Oracle(n, false, fmt.Sprintf("frame reader B panicked when the transport failed after %d of %d bytes", failAt, len(fr)))
+				case ek == "ok":
+					c.Oracle(n, false, fmt.Sprintf("frame reader B returned a packet although the transport failed after %d of %d bytes", failAt, len(fr)))
+				default:
+					c.Oracle(n, true, "")
+				}
+			}
+		}
 	}
 	c.Diag("c08 child crashes: %d", crashes)
 }
